@@ -141,6 +141,15 @@ class RenderNode(Node):
 
                 for itm in forloop:
                     args[key] = itm
+                    # A new isolated context for each item, so variables assigned
+                    # and counters incremented while rendering one item are not
+                    # seen when rendering the next.
+                    ctx = context.copy(
+                        namespace,
+                        disabled_tags=[TAG_INCLUDE],
+                        carry_loop_iterations=True,
+                        template=template,
+                    )
                     template.render_with_context(
                         ctx, buffer, partial=True, block_scope=True
                     )
@@ -221,6 +230,12 @@ class RenderNode(Node):
 
                 for itm in forloop:
                     args[key] = itm
+                    ctx = context.copy(
+                        namespace,
+                        disabled_tags=[TAG_INCLUDE],
+                        carry_loop_iterations=True,
+                        template=template,
+                    )
                     await template.render_with_context_async(
                         ctx, buffer, partial=True, block_scope=True
                     )
